@@ -6,8 +6,10 @@ MODULES = ["contracts.comm", "contracts.ssm", "contracts.iocb"]
 FUNCTIONS = CLIENT_CONF + CLIENT_TASK + CLIENT_START + SERVER_TASK + IOCB
 LEMMAS = []
 MIN_OBLIGATIONS = 150
-BOUNDED = None
+BOUNDED = "bounded.c04"
 ASSUMPTIONS = SSM_ASSUMPTIONS + [
+    "whole-system complement: two real stacks over a fault-injecting wire on a virtual clock (bounded stage, bounded/ssm_sim.py): every single fault at every frame, random multi-fault runs, silence from every point on; IOCB layer not part of the simulation",
+] + [
     "IOCB.trigger (completion event and user callbacks) and core.deferred are ghost-traced externals in the IOCB units; queues hold 0..2 waiting requests (structural bound)",
 ]
 NOT_DECIDED = [
